@@ -595,6 +595,210 @@ fn c13(tier: Tier) -> i32 {
     rep.finish(cov, &["ICU4X data defines CLDR directionality and identifier canonicalisation (trusted base)"])
 }
 
+// ---------------------------------------------------------------------------------------------
+// C17: translations embedded in the server-rendered page (dynamic_load + ssr)
+// ---------------------------------------------------------------------------------------------
+
+mod jslit;
+
+const C17_ITEMS: &str = r##"
+fn render_page(touch: impl Fn() + Clone + Send + Sync + 'static) -> String {
+    struct Noop;
+    impl any_spawner::CustomExecutor for Noop {
+        fn spawn(&self, _f: any_spawner::PinnedFuture<()>) {}
+        fn spawn_local(&self, _f: any_spawner::PinnedLocalFuture<()>) {}
+        fn poll_local(&self) {}
+    }
+    let _ = any_spawner::Executor::init_custom_executor(Noop);
+    let owner = Owner::new();
+    let html = owner.with(|| {
+        let opts = leptos_i18n::context::UseLocalesOptions::default().ssr_lang_header_getter(|| None);
+        view! {
+            <I18nContextProvider enable_cookie=false ssr_lang_header_getter=opts>
+                <p>{move || { touch(); "body" }}</p>
+            </I18nContextProvider>
+        }
+        .to_html()
+    });
+    html
+}
+"##;
+
+fn c17(tier: Tier) -> i32 {
+    let rep = Reporter::new("C17", "L3", tier);
+    let nasty: Vec<char> = vec!['"', '\\', '\u{0}', '\u{1}', '\u{1f}', '\u{7f}', '\u{a0}', '\u{ad}', '\u{200b}', '\u{2028}', '\u{feff}', '\u{301}', '\u{1f600}', 'a'];
+    let mut strings: Vec<String> = vec![];
+    for a in &nasty {
+        for b in &nasty {
+            strings.push(format!("{a}{b}"));
+        }
+    }
+    for sp in ["</script>", "</SCRIPT ", "<!--", "]]>", "\u{2029}", "'", "`", "${x}", "<script>", "</script>\\", "\n", "\r\n", "-->", "<!-- <script>", "é🎉", "plain text"] {
+        strings.push(sp.to_string());
+        strings.push(format!("he said \"hi\" \\ {sp} end"));
+    }
+    let units = [("en", "one"), ("en", "two"), ("fr", "one"), ("fr", "two")];
+    let per_file = (strings.len() + 3) / 4;
+    let mut cases = vec![];
+    let mut n_pages = 0u64;
+    // project A: namespaces; project B: no namespaces
+    for namespaced in [true, false] {
+        let mut cfg = Config::simple("en", &["en", "fr"]);
+        if namespaced {
+            cfg = cfg.with_namespaces(&["one", "two"]);
+        }
+        let mut p = Project::new(cfg);
+        let mut tables: BTreeMap<(String, String), Vec<String>> = BTreeMap::new();
+        for (ui, (loc, ns)) in units.iter().enumerate() {
+            if !namespaced && *ns == "two" {
+                continue;
+            }
+            let chunk: Vec<String> = strings.iter().skip(if namespaced { ui * per_file } else { (ui / 2) * 2 * per_file }).take(if namespaced { per_file } else { 2 * per_file }).cloned().collect();
+            let mut e: Vec<(String, Val)> = chunk.iter().enumerate().map(|(i, sv)| (format!("s{i:03}"), st(sv))).collect();
+            // the same key set in both locales (fr holds the en strings reversed) + an interpolation
+            if *loc == "fr" {
+                let vals: Vec<Val> = e.iter().rev().map(|(_, v)| v.clone()).collect();
+                for (i, v) in vals.into_iter().enumerate() {
+                    e[i].1 = v;
+                }
+            }
+            e.push(("greet".into(), s(vec![text(&format!("[{loc}.{ns}] \"")), var("x"), text("\" </script>")])));
+            tables.insert((loc.to_string(), ns.to_string()), chunk);
+            p.set_file(if namespaced { Some(ns) } else { None }, loc, e);
+        }
+        let mut c = Case::new(&format!("c17_{}_{}", tier.name(), if namespaced { "ns" } else { "flat" }), p.clone());
+        c.probe.features = vec!["dynamic_load"];
+        c.probe.items.push_str(C17_ITEMS);
+        // the table each unit exports through the server function
+        let live_units: Vec<(&str, &str)> = units.iter().copied().filter(|(_, ns)| namespaced || *ns == "one").collect();
+        for (loc, ns) in &live_units {
+            let id = if namespaced { format!("I18nTranslationUnitsId::{ns}") } else { "()".to_string() };
+            c.add(
+                format!("serde_json::to_string(&I18nKeys::__i18n_request_translations__({}, {id})).unwrap()", locale_variant(loc)),
+                format!("TABLE {loc} {ns}"),
+                String::new(),
+            );
+        }
+        // pages: every ordered subset of touched units (+ a locale switch mid-render)
+        let mut seqs: Vec<Vec<usize>> = vec![vec![]];
+        let n = live_units.len();
+        for mask in subsets(n) {
+            let members: Vec<usize> = (0..n).filter(|i| mask >> i & 1 == 1).collect();
+            if members.is_empty() {
+                continue;
+            }
+            for perm in permutations(members.len()) {
+                seqs.push(perm.iter().map(|i| members[*i]).collect());
+            }
+        }
+        for seq in &seqs {
+            let mut body = String::new();
+            for u in seq {
+                let (loc, ns) = live_units[*u];
+                let key = if namespaced { format!("{ns}.s000") } else { "s000".to_string() };
+                body.push_str(&format!("let _ = futures::executor::block_on(async {{ td_string!({}, {key}).await.to_string() }}); ", locale_variant(loc)));
+            }
+            c.add(format!("render_page(move || {{ {body} }})"), format!("PAGE touched {:?}", seq.iter().map(|u| live_units[*u]).collect::<Vec<_>>()), String::new());
+            n_pages += 1;
+        }
+        // through the context, with a locale switch in the middle of the render
+        let k1 = if namespaced { "one.greet" } else { "greet" };
+        let k2 = if namespaced { "two.s001" } else { "s001" };
+        c.add(
+            format!("render_page(move || {{ let i18n = use_i18n(); let _ = futures::executor::block_on(async {{ t_string!(i18n, {k1}, x = \"v\").await.to_string() }}); i18n.set_locale(Locale::fr); let _ = futures::executor::block_on(async {{ t_string!(i18n, {k2}).await.to_string() }}); }})"),
+            format!("PAGE switch en:{k1} -> fr:{k2}"),
+            String::new(),
+        );
+        n_pages += 1;
+        cases.push((c, tables, namespaced));
+    }
+    // run
+    let mut plain_cases = vec![];
+    let mut metas = vec![];
+    for (c, tables, namespaced) in cases {
+        metas.push((c.probe.name.clone(), c.expected.iter().map(|(k, v)| (*k, v.what.clone())).collect::<BTreeMap<_, _>>(), tables, namespaced));
+        // expectations are judged below, not by `execute`
+        plain_cases.push(Case { probe: c.probe, expected: BTreeMap::new(), next_id: c.next_id });
+    }
+    execute(&rep, "C17", plain_cases);
+    for (name, whats, tables, namespaced) in metas {
+        let Ok(records) = run(&name) else { continue };
+        // exported tables per unit
+        let mut exported: BTreeMap<(String, String), Vec<String>> = BTreeMap::new();
+        for (id, what) in &whats {
+            if let Some(rest) = what.strip_prefix("TABLE ") {
+                let (loc, ns) = rest.split_once(' ').unwrap();
+                let Some(js) = records.get(id) else { continue };
+                match serde_json::from_str::<Vec<String>>(js) {
+                    Ok(v) => {
+                        // every literal of the file is in the table
+                        let want: std::collections::BTreeSet<&String> = tables[&(loc.to_string(), ns.to_string())].iter().collect();
+                        let got: std::collections::BTreeSet<&String> = v.iter().collect();
+                        if !want.is_subset(&got) {
+                            rep.violation(format!("C17/L3: server-function table of ({loc},{ns}) lacks literals of the file"), json!({}));
+                        }
+                        exported.insert((loc.to_string(), ns.to_string()), v);
+                    }
+                    Err(e) => rep.violation(format!("C17/L3: server-function table of ({loc},{ns}) is not JSON: {e}"), json!({})),
+                }
+                rep.eval(1);
+            }
+        }
+        for (id, what) in &whats {
+            let Some(desc) = what.strip_prefix("PAGE ") else { continue };
+            rep.eval(1);
+            let Some(html) = records.get(id) else {
+                rep.violation(format!("C17/L3: no page rendered for {desc}"), json!({}));
+                continue;
+            };
+            // which units did the page touch?
+            let mut want_units: std::collections::BTreeSet<(String, String)> = Default::default();
+            for (loc, ns) in [("en", "one"), ("en", "two"), ("fr", "one"), ("fr", "two")] {
+                if desc.contains(&format!("(\"{loc}\", \"{ns}\")")) {
+                    want_units.insert((loc.to_string(), ns.to_string()));
+                }
+            }
+            if desc.starts_with("switch") {
+                want_units.insert(("en".into(), "one".into()));
+                want_units.insert(("fr".into(), if namespaced { "two".into() } else { "one".into() }));
+            }
+            match jslit::extract_and_decode(html) {
+                Err(e) => rep.violation(
+                    format!("C17/L3: page touching {desc} (namespaced={namespaced}): embedded script is not a valid `window.__LEPTOS_I18N_TRANSLATIONS = [..];` statement: {e}"),
+                    json!({"page_head": vmodel::report::truncate(html, 600)}),
+                ),
+                Ok(units) => {
+                    let got_units: std::collections::BTreeSet<(String, String)> = units.iter().map(|u| (u.locale.clone(), u.id.clone().unwrap_or_else(|| "one".into()))).collect();
+                    if got_units != want_units || units.len() != want_units.len() {
+                        rep.violation(format!("C17/L3: page touching {desc} embeds units {got_units:?}, expected exactly {want_units:?}"), json!({}));
+                    }
+                    for u in &units {
+                        let key = (u.locale.clone(), u.id.clone().unwrap_or_else(|| "one".into()));
+                        if let Some(t) = exported.get(&key) {
+                            if *t != u.values {
+                                let i = t.iter().zip(&u.values).position(|(a, b)| a != b).unwrap_or(t.len().min(u.values.len()));
+                                rep.violation(
+                                    format!("C17/L3: page touching {desc}: embedded strings of unit {key:?} differ from the unit's table at index {i}: {:?} vs {:?}", u.values.get(i), t.get(i)),
+                                    json!({}),
+                                );
+                            }
+                        }
+                        if namespaced != u.id.is_some() {
+                            rep.violation(format!("C17/L3: unit id {:?} with namespaced={namespaced}", u.id), json!({}));
+                        }
+                    }
+                }
+            }
+        }
+    }
+    rep.nontriv(n_pages);
+    rep.sample(json!({"strings": ["\"\\", "</script>", "he said \"hi\" \\ </script> end", "\u{2028}a"]}));
+    let mut cov = serde_json::Map::new();
+    cov.insert("rule".into(), json!("two probe crates built with dynamic_load + ssr (two namespaces x two locales; no namespaces): translation strings = all 196 two-character strings over 14 hostile characters plus </script>, </SCRIPT , <!--, -->, ]]>, U+2029, quotes, backtick, ${x}, newlines alone and inside a sentence with quotes and backslashes; pages = <I18nContextProvider> rendered natively to HTML for every ordered subset of touched units (65 with namespaces, 5 without) and a context-driven render with a locale switch in the middle; oracle: the <script> element is cut the way an HTML tokenizer cuts it (first `</script` + space, / or >), its body must be `window.__LEPTOS_I18N_TRANSLATIONS = <array literal>;` read by an ECMAScript literal reader (all JS escapes, no raw line terminators in strings), and its decoded value must list exactly the touched (locale, unit) pairs, each with the unit's table as exported by the generated server function"));
+    cov.insert("exhaustive".into(), json!(true));
+    rep.finish(cov, &["the hydrate-side consumer (init_translations, serde_wasm_bindgen) needs a browser: not executed"])
+}
+
 fn main() {
     let args: Vec<String> = std::env::args().collect();
     let tier = Tier::from_env_or_args(&args);
@@ -602,6 +806,7 @@ fn main() {
         "c01" => c01(tier),
         "c02" => c02(tier),
         "c13" => c13(tier),
+        "c17" => c17(tier),
         _ => {
             eprintln!("usage: vgen <c01|...> [--tier quick|thorough]");
             2
